@@ -77,8 +77,18 @@ def _exec_one(inp):
         rec = _MOD.execute(inp)
         rec["id"] = inp["id"]
         return rec
-    except Exception:
-        return {"id": inp["id"], "_crash": traceback.format_exc()}
+    except Exception as e:
+        return {"id": inp["id"], "_crash": traceback.format_exc(), "_in_repo": _raised_in_repo(e),
+                "_exc": type(e).__name__}
+
+
+def _raised_in_repo(e):
+    """True when the exception was raised by pycaption's own code (innermost frame under the
+    repository), not by the harness: the implementation failed on an input of the property's
+    domain, which no trace specification can accept."""
+    repo = os.path.realpath(os.environ.get("VERIF_REPO", "/repo")) + os.sep
+    tb = traceback.extract_tb(e.__traceback__)
+    return bool(tb) and os.path.realpath(tb[-1].filename).startswith(repo)
 
 
 def execute_all(mod, inputs, procs=None):
@@ -132,10 +142,13 @@ def run_check(mod, tier, seed, replay=None):
             ids.add(i["id"])
         by_id = {i["id"]: i for i in inputs}
         records = execute_all(mod, inputs)
-        crashed = [r for r in records if "_crash" in r]
+        crashed = [r for r in records if "_crash" in r and not r.get("_in_repo")]
         if crashed:
             raise tlc.MachineryError("harness crashed on input %s:\n%s" % (
                 json.dumps(by_id[crashed[0]["id"]])[:2000], crashed[0]["_crash"]))
+        # pycaption itself raised where the harness expects none: there is no observation to judge
+        impl_raised = [r for r in records if r.get("_in_repo")]
+        records = [r for r in records if "_crash" not in r]
         rec_by_id = {r["id"]: r for r in records}
         judged = 0
         rejects = []
@@ -212,6 +225,10 @@ def run_check(mod, tier, seed, replay=None):
                     reval.append((hit["revalidate"].get("trace", mod.TRACE), r2, rid, clause, sig))
             else:
                 violations.append((inp, rec, clause, sig))
+        for r in impl_raised:
+            violations.append((by_id[r["id"]], {"id": r["id"], "traceback": r["_crash"][-3000:]},
+                               "ImplementationRaised:" + r["_exc"],
+                               {"clause": "ImplementationRaised", "exception": r["_exc"]}))
         if reval:
             groups2 = {}
             for trace, r2, rid, clause, sig in reval:
@@ -285,6 +302,17 @@ def run_check(mod, tier, seed, replay=None):
         return 1 if violations else 0
     except tlc.MachineryError as e:
         print("MACHINERY-FAILURE property=%s: %s" % (pid, e), file=sys.stderr)
+        return 2
+    except Exception as e:
+        if _raised_in_repo(e):
+            # pycaption raised while the inputs of the check were being prepared (writers are used
+            # to make documents): reported as a violation, with the traceback as the replay
+            path = write_replay(pid, {"id": "prepare"}, {"traceback": traceback.format_exc()[-3000:]},
+                                "ImplementationRaised:" + type(e).__name__)
+            print("VIOLATION property=%s replay=%s clause=ImplementationRaised:%s (while preparing inputs)" % (
+                pid, path, type(e).__name__))
+            return 1
+        print("MACHINERY-FAILURE property=%s: %s" % (pid, traceback.format_exc()), file=sys.stderr)
         return 2
 
 
